@@ -90,6 +90,15 @@ def streams(sp, tf, first):
         for tail in A.words(sp["abs_sigma"], sp["abs_n"]):
             w = f + tail + "FFF"
             yield ("frac", w), raw_stream(w, "+" if tf else "b", ("h" if tf else "t") * (len(w) - 1), tf, var=fine)
+    elif fam == "micro":
+        # sub-second timestamps (the library drops them): first candle on a bucket edge + 0.4 s, candles sharing one second
+        from datetime import timedelta as _td
+        step = A.tf_seconds(tf)
+        for tail in A.words(sp["abs_sigma"], sp["abs_n"] - 1):
+            w = f + tail
+            for gaps in ("0" * (len(w) - 1), "0h0t"[: len(w) - 1], "h0t0"[: len(w) - 1]):
+                ts = [t.replace(microsecond=400000) for t in A.timestamps("b", gaps, step, A.variant()["base"])]
+                yield ("micro", w + ":" + gaps), [A.shape(ch) + (t.isoformat(),) for ch, t in zip(w, ts)]
     elif fam == "late":
         # the same absolute words starting a few minutes before midnight (and before a month / year end): calendar edges
         from datetime import datetime as _dt
@@ -374,6 +383,8 @@ def main(prop, tier):
             for f in sp["abs_sigma"]:
                 items.append((prop, tier, cfg["label"], tfc, ("frac", f)))
                 items.append((prop, tier, cfg["label"], tfc, ("late", f)))
+                if tfc[0]:
+                    items.append((prop, tier, cfg["label"], tfc, ("micro", f)))
     rep = merge_all(pmap(explore, items, chunksize=4))
     rule = ("every word of three stream families (absolute shapes sigma^n incl. flat-start prefixes; relative close steps "
             "{+1,-1,0 with wicks, 0 flat zero-volume, +2,-2 bodies}^<=n incl. all monotone runs; stutter words with runs of 16+ identical "
